@@ -23,10 +23,11 @@ def _solve(text, quick_t, full_t):
     if text.rstrip().endswith('(assert (not true))\n(check-sat)'):
         return smt.Result('unsat', 'syntactic', 0.0, 'goal simplified to true by the term layer')
     from .inst import variants
-    r = smt.solve_text(text, quick_t, ('z3', 'cvc5'))
+    vs = variants(text)
+    al = [v for v in vs if v[0] == '+align']
+    r = smt.solve_text(text, quick_t, ('z3', 'cvc5'), alt_text=al or None)
     if r.verdict in ('unsat', 'sat', 'error'):
         return r
-    vs = variants(text)
     r2 = smt.solve_text(text, full_t, ('z3', 'cvc5'), alt_text=vs)
     r2.time += r.time
     return r2
